@@ -1177,3 +1177,146 @@ func ruleMatlabExtentOrderAgrees(c *core.Ctx) {
 	}
 	_ = n
 }
+
+// X7: a type conversion in a computed field is always printed as an explicit conversion. yardl's `e as T` changes
+// the type the rest of the expression is computed in (e.g. `(a as int64) * b`); the target language's own implicit
+// conversions are different (C++ usual arithmetic conversions, MATLAB's saturating classes), so an emitter may not
+// drop the conversion under any condition: inside the *dsl.TypeConversionExpression case the emission of the
+// conversion wrapper is guarded by nothing but the case itself.
+func ruleConversionAlwaysExplicit(c *core.Ctx) {
+	const rule = "X7"
+	c.Rule(rule, "each expression emitter prints `e as T` as an explicit conversion on every path of its TypeConversionExpression case (C++ static_cast<T>(, Python <callable>(, MATLAB <class>( through writeTypeConversion)", 3)
+	isConv := func(r gee.Row, lang string) bool {
+		switch lang {
+		case "cpp":
+			return r.Kind == "emit" && strings.Contains(r.Tmpl, "static_cast<%s>(")
+		case "python":
+			return r.Kind == "emit" && strings.HasSuffix(strings.TrimSpace(r.Tmpl), "%s(") && len(r.Args) == 1 && strings.Contains(r.Args[0], "TypeConversionExpression.Type")
+		case "matlab":
+			return (r.Kind == "call" && len(r.Args) >= 2 && strings.Contains(r.Args[1], "TypeConversionExpression.Type")) ||
+				(r.Kind == "emit" && strings.HasSuffix(strings.TrimSpace(r.Tmpl), "(") && len(r.Args) >= 1 && strings.Contains(strings.Join(r.Args, " "), "TypeConversionExpression.Type"))
+		}
+		return false
+	}
+	for _, em := range exprEmitters {
+		p := c.Pkg(em.pkg)
+		_, d, _ := c.Func(em.pkg, em.fn)
+		if d == nil || p == nil {
+			c.Undecided(rule, em.name+"/anchor", 0, "emitter not found")
+			continue
+		}
+		x := &gee.Extractor{Info: p.TypesInfo, Fset: c.Fset, Decl: func(f *types.Func) *ast.FuncDecl {
+			if f == nil || f.Pkg() != p.Types {
+				return nil
+			}
+			return c.Decl(f)
+		}}
+		const label = "type(Node)∈{TypeConversionExpression}"
+		var inCase []gee.Row
+		for _, r := range x.Extract(em.fn, d) {
+			for _, g := range r.Guards {
+				if stripDsl(g) == label {
+					inCase = append(inCase, r)
+					break
+				}
+			}
+		}
+		key := em.name + "/TypeConversionExpression/explicit conversion"
+		if len(inCase) == 0 {
+			c.Undecided(rule, key, d.Pos(), "case *dsl.TypeConversionExpression not found in the emitter")
+			continue
+		}
+		var conv *gee.Row
+		for i := range inCase {
+			if isConv(inCase[i], em.name) {
+				conv = &inCase[i]
+				break
+			}
+		}
+		if conv == nil {
+			c.Bad(rule, key, inCase[0].Pos, "the TypeConversionExpression case emits no conversion wrapper: `e as T` is printed as `e`")
+			continue
+		}
+		var extra []string
+		for _, g := range conv.Guards {
+			if stripDsl(g) != label {
+				extra = append(extra, g)
+			}
+		}
+		c.Check(len(extra) == 0, rule, key, conv.Pos, "the conversion wrapper is emitted on every path of the case",
+			"the conversion is emitted only under `"+strings.Join(extra, " ∧ ")+"`; otherwise `e as T` is printed as `e` and the target language's implicit conversions decide the arithmetic (e.g. a 32-bit multiply for `(i32 as int64) * i32`, unsigned arithmetic for `u32 + i32`)")
+	}
+}
+
+// X8: the MATLAB conversion wrapper names the class of the target primitive. Sibling tables inside the MATLAB back
+// end — the class printed for a primitive type (common.TypeSyntaxWriter) and the wrapper writeTypeConversion puts
+// around `e as <primitive>` — must agree for every integer and floating-point primitive.
+func ruleMatlabConversionClass(c *core.Ctx) {
+	const rule = "X8"
+	c.Rule(rule, "matlab: for every integer and floating-point primitive the wrapper printed for `e as T` (types.writeTypeConversion) is the MATLAB class printed for T elsewhere (common.TypeSyntaxWriter)", 10)
+	primRows := func(pkgRel, fn string) (map[string]string, *ast.FuncDecl) {
+		out := map[string]string{}
+		p := c.Pkg(pkgRel)
+		if p == nil {
+			return out, nil
+		}
+		var d *ast.FuncDecl
+		var body ast.Node
+		for _, f := range p.Syntax {
+			for _, dd := range f.Decls {
+				switch x := dd.(type) {
+				case *ast.FuncDecl:
+					if x.Name.Name == fn {
+						d = x
+					}
+				case *ast.GenDecl:
+					for _, sp := range x.Specs {
+						if vs, ok := sp.(*ast.ValueSpec); ok {
+							for i, nm := range vs.Names {
+								if nm.Name == fn && i < len(vs.Values) {
+									if fl, ok := vs.Values[i].(*ast.FuncLit); ok {
+										body = fl
+										d = &ast.FuncDecl{Name: nm, Type: fl.Type, Body: fl.Body}
+									}
+								}
+							}
+						}
+					}
+				}
+			}
+		}
+		_ = body
+		if d == nil {
+			return out, nil
+		}
+		x := &gee.Extractor{Info: p.TypesInfo, Fset: c.Fset}
+		for _, r := range x.Extract(fn, d) {
+			if r.Kind != "return" || strings.Contains(r.Tmpl, "%") {
+				continue
+			}
+			for _, g := range r.Guards {
+				g = stripDsl(g)
+				if strings.HasPrefix(g, "PrimitiveDefinition∈{") {
+					for _, prim := range strings.Split(g[len("PrimitiveDefinition∈{"):len(g)-1], "|") {
+						prim = strings.Trim(prim, "\"")
+						if _, dup := out[prim]; !dup {
+							out[prim] = r.Tmpl
+						}
+					}
+				}
+			}
+		}
+		return out, d
+	}
+	syntax, sd := primRows("internal/matlab/common", "TypeSyntaxWriter")
+	wrap, wd := primRows("internal/matlab/types", "writeTypeConversion")
+	if sd == nil || wd == nil || len(syntax) == 0 || len(wrap) == 0 {
+		c.Undecided(rule, "anchor/matlab TypeSyntaxWriter / writeTypeConversion", 0, fmt.Sprintf("tables not found (%d / %d rows)", len(syntax), len(wrap)))
+		return
+	}
+	for _, prim := range []string{"int8", "uint8", "int16", "uint16", "int32", "uint32", "int64", "uint64", "size", "float32", "float64"} {
+		w, s := wrap[prim], syntax[prim]
+		c.Check(w != "" && s != "" && w == s+"(", rule, "matlab/conversion wrapper/"+prim, wd.Pos(), prim+" → "+w,
+			fmt.Sprintf("`e as %s` is wrapped in `%s…)` although the MATLAB class of %s is `%s`: the value gets another class (range, saturation and the serializer's class check differ)", strings.ToLower(prim), w, strings.ToLower(prim), s))
+	}
+}
